@@ -1,3 +1,4 @@
+import ShellOp.Generated.Facts
 /-
 Model of one hook execution: `Hook.Run` (`pkg/hook/hook.go`), `RunAndLogLines`
 (`pkg/executor/executor.go`, only its verdict: non-zero exit → error) and `handleRunHook`
@@ -78,6 +79,13 @@ def prepare : List Name → List Bool → List Name → List Name → List Name 
 variable is "yes", `os.Remove` of every path variable that is non-empty, in the code's order. -/
 def cleanup (keepTmp : Bool) (names : Names) (created : List Name) (dir : List Name) : List Name :=
   if keepTmp then dir else removeAll (names.removed.filter (fun x => created.contains x)) dir
+
+/-- The condition of the deferred removal, from the value of `--debug-keep-tmp-files`
+(`app.DebugKeepTmpFilesVar`, a string, "no" by default): `if app.DebugKeepTmpFilesVar != "yes" { remove }`
+— the files are kept iff the value is the literal of that comparison (regenerated from `hook.go`).
+`Hook.KeepTemporaryHookFiles` (set by `loadHook` from the bool `app.DebugKeepTmpFiles`, which nothing
+assigns) is not read by `Run`. -/
+def keepSetting (v : String) : Bool := v == ShellOp.Facts.c12KeepLiteral
 
 /-- The unrepaired `Run` registered the removal only after all five files existed: a failure
 half-way left the earlier files behind (regression witness in `Props/C12`). -/
